@@ -119,13 +119,13 @@ pub fn run(rep: &mut Report, tier: &str, seed: u64, shard: (u32, u32), replay: O
         return;
     }
     let mut rng = StdRng::seed_from_u64(seed ^ 0xc03 ^ ((shard.0 as u64) << 40));
-    let n_cases: u64 = if tier == "thorough" { 60_000 } else { 1200 };
+    let n_cases: u64 = if tier == "miri" { 4 } else if tier == "thorough" { 60_000 } else { 1200 };
     let budget = Budget::new(n_cases, if tier == "thorough" { 900.0 } else { 25.0 });
     let mut i = 0;
     while budget.left(i) {
         i += 1;
         let cfg = gen_config(&mut rng);
-        let case = Case { cfg, adversarial_time: rng.gen_bool(0.5), gen_seed: rng.gen(), n_ops: 250, ops: vec![] };
+        let case = Case { cfg, adversarial_time: rng.gen_bool(0.5), gen_seed: rng.gen(), n_ops: if tier == "miri" { 60 } else { 250 }, ops: vec![] };
         if i <= 2 {
             rep.sample(json!({"config": case.cfg, "adversarial_time": case.adversarial_time, "n_ops": case.n_ops}));
         }
